@@ -2,6 +2,7 @@ import Props.C16
 import Proofs.C19Order
 import GoawkModel.Generated.C19Maps
 import GoawkModel.Generated.C19Writes
+import GoawkModel.Generated.C19PkgVars
 /-! Property theorems for C19 — parsing is deterministic; a parsed Program is immutable and shareable.
 Determinism is a theorem about the resolver model of C16 with every Go map iteration made an explicit parameter.
 Immutability is carried by two regenerated source facts (no statement of package interp writes through the shared Program;
@@ -61,6 +62,22 @@ theorem no_order_sensitive_range :
 
 /-- no statement of package interp writes through the shared Program -/
 theorem gen_matches_programWrites : Generated.C19Writes.programWrites = [] := by decide
+
+/-- package-level slices/maps of package interp (state shared by all interpreters) and how they are initialised -/
+def expectedPackageVars : List (String × String × String) := [("defaultShellCommand", "slice", "exact-cap")]
+
+/-- every statement that may write into the backing store of such a variable -/
+def expectedSharedWrites : List (String × String × String × String × String) := [
+  ("interp/io.go", "execShell", "append", "args", "defaultShellCommand")]
+
+theorem gen_matches_packageVars : Generated.C19PkgVars.packageVars = expectedPackageVars := by decide
+theorem gen_matches_sharedWrites : Generated.C19PkgVars.sharedWrites = expectedSharedWrites := by decide
+
+/-- the only writes through shared package state are appends to slices whose capacity equals their length, which copy:
+no interpreter ever stores into memory another interpreter can see -/
+theorem shared_writes_copy :
+    ∀ w ∈ Generated.C19PkgVars.sharedWrites, w.2.2.1 = "append" ∧
+      (w.2.2.2.2, "slice", "exact-cap") ∈ Generated.C19PkgVars.packageVars := by decide
 
 /-! ### non-vacuity: three functions with independent type errors (the F22 witness shape); reversing or rotating every map
 iteration reports the same error at the same place -/
